@@ -113,8 +113,19 @@ poke(struct netbuf_write * W)
 	/* Sanity-check: We don't have a buffer in progress. */
 	assert(W->curr == NULL);
 
+	/* Discard buffers which hold no data (zero-length writes). */
+	while (((WB = STAILQ_FIRST(&W->buffers)) != NULL) &&
+	    (WB->datalen == 0)) {
+		STAILQ_REMOVE_HEAD(&W->buffers, entries);
+		free(WB->buf);
+		free(WB);
+	}
+
+	/* If that leaves us with nothing to write, return. */
+	if (WB == NULL)
+		return (0);
+
 	/* Start writing a buffer. */
-	WB = STAILQ_FIRST(&W->buffers);
 	if (W->ssl) {
 		if ((W->write_cookie = (netbuf_write_ssl_func)(W->ssl,
 		    WB->buf, WB->datalen, WB->datalen, writbuf, W)) == NULL)
